@@ -47,6 +47,12 @@ EXC_CLASSES = {"ValueError": ValueError, "KeyError": KeyError, "ZeroDivisionErro
                "MyError": MyError, "MyDeepError": MyDeepError, "CafeError": CaféError, "LongNameError": LongNameError,
                "AssertionError": AssertionError, "OSError": OSError, "BadStrError": BadStrError}
 EXC_CLASSES.update(HOMONYMS)
+# foolscap's own exception classes, raised by the application code of the callee (or relayed through a middle party)
+from foolscap.tokens import BananaError as _BananaError, NegotiationError as _NegotiationError
+from foolscap.ipb import DeadReferenceError as _DeadReferenceError
+OWN_CLASSES = {"foolscap:RemoteException": RemoteException, "foolscap:Violation": Violation, "foolscap:BananaError": _BananaError,
+               "foolscap:DeadReferenceError": _DeadReferenceError, "foolscap:NegotiationError": _NegotiationError}
+EXC_CLASSES.update(OWN_CLASSES)
 
 
 class Unsendable(object):
@@ -80,37 +86,62 @@ class RIThing(RemoteInterface):
         return int
 
 
-EXECUTED = []      # names of the remote methods that really ran, in order (reset per batch)
+EXECUTED = []      # names of the remote methods that really ran on the callee B, in order (reset per batch)
+FAR_EXECUTED = []  # ... on the third party C
 
 
 class Plain(Referenceable):
+    log = EXECUTED                    # the far party C gets its own list
+
+    def _ran(self, name):
+        self.log.append(name)
+
     def remote_echo(self, x):
-        EXECUTED.append("echo")
+        self._ran("echo")
         return x
 
     def remote_add(self, a, b=0):
-        EXECUTED.append("add")
+        self._ran("add")
         return a + b
 
     def remote_boom(self, cls, kind, n):
-        EXECUTED.append("boom")
+        self._ran("boom")
         raise EXC_CLASSES[cls](message([kind, n]))      # the text is built here, on the callee
 
     def remote_boom_noargs(self, cls):
-        EXECUTED.append("boom_noargs")
+        self._ran("boom_noargs")
         raise EXC_CLASSES[cls]()
 
     def remote_unsendable_result(self, depth):
-        EXECUTED.append("unsendable_result")
+        self._ran("unsendable_result")
         return nest(depth, Unsendable())
 
     def remote_text(self):
-        EXECUTED.append("text")
+        self._ran("text")
         return u"text"
 
     def remote_echo3(self, a, b, c):
-        EXECUTED.append("echo3")
+        self._ran("echo3")
         return 3
+
+
+class Relay(Referenceable):
+    """the middle party B: forwards the call to a third party C and hands C's answer (or failure) back to A"""
+
+    def __init__(self, rr_far):
+        self.rr_far = rr_far
+
+    def remote_relay_boom(self, cls, kind, n):
+        EXECUTED.append("relay")
+        return self.rr_far.callRemote("boom", cls, kind, n)
+
+    def remote_relay_echo(self, x):
+        EXECUTED.append("relay")
+        return self.rr_far.callRemote("echo", x)
+
+
+class Thing(Referenceable):
+    """lives in a third Tub; a reference to it passed to B is a gift"""
 
 
 from zope.interface import implementer
@@ -208,21 +239,64 @@ SHARED_VARIANTS = ["twice", "dictalias", "nested", "mixed"]
 
 
 # ------------------------------------------------------------------ one batch
+def pair(tubid_target, tubid_caller):
+    """two Brokers back to back on loopback transports; the first lives in Tub `tubid_target`"""
+    from foolscap.test.common import Loopback
+    from foolscap.referenceable import TubRef
+    tb = broker.Broker(TubRef(tubid_caller))      # its peer is the caller
+    cb = broker.Broker(TubRef(tubid_target))
+    t1 = Loopback(); t1.peer = cb; t1.protocol = tb; tb.transport = t1
+    t2 = Loopback(); t2.peer = tb; t2.protocol = cb; cb.transport = t2
+    tb.connectionMade(); cb.connectionMade()
+    return tb, cb
+
+
+TUB_A, TUB_B, TUB_C = "a" * 32, "b" * 32, "c" * 32
+
+
 def setup(opts):
-    tb, cb = E.broker_pair()
+    """A (caller) <-> B (callee); B <-> C (B relays calls to C); A <-> C (A holds references into C: gifts for B)"""
+    tb, cb = pair(TUB_B, TUB_A)
+    net = None
+    gm = opts.get("gift_mode")
+    if gm:
+        # gifts need a Tub on the receiving side: one that refuses them, or one that cannot reach the third party
+        from foolscap.api import Tub
+        if gm == "refuse":
+            tub = Tub(certData=E.pem(0))
+            tub.setOption("accept-gifts", False)
+        else:
+            net = E.Net()
+            tub = E.make_tub(net, "b", E.pem(0))
+        tb.setTub(tub)
     for b in (tb, cb):
         b.unsafeTracebacks = bool(opts.get("unsafe", True))
         b._expose_remote_exception_types = bool(opts.get("expose", True))
     plain, typed = Plain(), Typed()
 
-    def export(target, iname=None):
-        tr = tb.getTrackerForMyReference(target.processUniqueID(), target)
+    def export(holder, user, target, iname=None, url=None):
+        tr = holder.getTrackerForMyReference(target.processUniqueID(), target)
         tr.send()
-        return cb.getTrackerForYourReference(tr.clid, iname).getRef()
-    rr_plain = export(plain)
-    rr_typed = export(typed)     # the caller does not know the interface: only the callee checks
+        return user.getTrackerForYourReference(tr.clid, iname, url).getRef()
+    rr_plain = export(tb, cb, plain)
+    rr_typed = export(tb, cb, typed)     # the caller does not know the interface: only the callee checks
     rr_bogus = cb.getTrackerForYourReference(9999, None).getRef()
-    return tb, cb, dict(plain=rr_plain, typed=rr_typed, bogus=rr_bogus), (plain, typed)
+    # B -> C
+    c_b, b_c = pair(TUB_C, TUB_B)
+    c_b.unsafeTracebacks = b_c.unsafeTracebacks = bool(opts.get("unsafe", True))
+    b_c._expose_remote_exception_types = bool(opts.get("middle_expose", True))
+    far = Plain()
+    far.log = FAR_EXECUTED
+    relay = Relay(export(c_b, b_c, far))
+    rr_relay = export(tb, cb, relay)
+    # A -> C
+    c_a, a_c = pair(TUB_C, TUB_A)
+    thing = Thing()
+    hint = "tcp:c.example.org:1234" if gm != "unresolvable" else "fake:nosuch:1"
+    rr_thing = export(c_a, a_c, thing, url="pb://%s@%s/thing" % (TUB_C, hint))
+    rrs = dict(plain=rr_plain, typed=rr_typed, bogus=rr_bogus, relay=rr_relay, thing=rr_thing)
+    keep = (plain, typed, far, relay, thing, c_b, b_c, c_a, a_c, net)
+    return tb, cb, rrs, keep
 
 
 CALLER_SIDE = ("unsendable", "slicer-raises", "surrogate")     # the caller's own serializer gives up at this argument
@@ -264,6 +338,12 @@ def issue(rrs, spec):
         return rrs["typed"].callRemote("multi" if spec.get("known", True) else "nosuchmulti", a[0], b=a[1], c=a[2])
     if k == "ok":
         return rrs["plain"].callRemote("echo", spec["v"])
+    if k == "relay":                # A calls B, B calls C, C raises: what does A get?
+        return rrs["relay"].callRemote("relay_boom", spec["cls"], spec["msg"][0], spec["msg"][1])
+    if k == "relay-ok":
+        return rrs["relay"].callRemote("relay_echo", spec["v"])
+    if k == "gift":                 # an argument whose resolution on the callee fails asynchronously (ready_deferred errbacks)
+        return rrs["plain"].callRemote("echo", nest(spec["depth"], rrs["thing"]))
     if k == "ok-add":
         return rrs["plain"].callRemote("add", spec["v"], b=1)
     if k == "shared":               # fault-free, but one container occurs several times in the argument
@@ -313,7 +393,8 @@ def describe(res, expose):
         return dict(ok=True, value=res)
     f = res
     out = dict(ok=False, wrapped=False)
-    if f.check(RemoteException):
+    # a local RemoteException wrapper is an INSTANCE; a CopiedFailure of a remote RemoteException only answers check()
+    if isinstance(f.value, RemoteException) and isinstance(getattr(f.value, "failure", None), failure.Failure):
         out["wrapped"] = True
         f = f.value.failure
     out["copied"] = isinstance(f, call.CopiedFailure)
@@ -375,6 +456,7 @@ def run_batch(specs, opts):
 def _run_batch(specs, opts):
     E.reset_clock()
     del EXECUTED[:]
+    del FAR_EXECUTED[:]
     n_err0 = len(E.logged_errors)
     tb, cb, rrs, targets = setup(opts)
     E.turn()
@@ -394,6 +476,15 @@ def _run_batch(specs, opts):
             escaped = "callRemote raised %r" % (e,)
     try:
         E.turn()
+        net = targets[-1]
+        if net is not None:         # let the callee's Tub try (and fail) to reach the third party, in virtual time
+            for i in range(4):
+                net.run()
+                E.turn()
+                if all(fired):
+                    break
+                E.clock.advance(130)
+                E.turn()
     except Exception as e:
         escaped = "exception escaped the event loop: %r" % (e,)
     later = []
@@ -408,7 +499,7 @@ def _run_batch(specs, opts):
                disconnected=(bool(cb.disconnected), bool(tb.disconnected)),
                caller_bytes=tap_c.bytes(), callee_bytes=tap_t.bytes(), open0=open0, topen0=topen0,
                counters=dict(caller_sent=cb.openCount, callee_seen=tb.objectCounter, callee_sent=tb.openCount, caller_seen=cb.objectCounter),
-               executed=list(EXECUTED), waiting=len(cb.waitingForAnswers), active_local=len(tb.activeLocalCalls), escaped=escaped,
+               executed=list(EXECUTED), far_executed=list(FAR_EXECUTED), waiting=len(cb.waitingForAnswers), active_local=len(tb.activeLocalCalls), escaped=escaped,
                logged=len(E.logged_errors) - n_err0)
     return out
 
